@@ -86,6 +86,15 @@ func buildNetwork(r *rand.Rand, o genOpts) *genNet {
 		g.types = append(g.types, t)
 	}
 	g.types = append(g.types, acmelib.NewFlagSignalType(g.name(r, "flag", o)))
+	if r.Intn(2) == 0 {
+		// numbers at and beyond the 64-bit integer range (a text or integer short-cut for doubles fails here)
+		t, err := acmelib.NewCustomSignalType(g.name(r, "type", o), 8, false, 0, 18446744073709551615, 1, 0)
+		must(err)
+		g.types = append(g.types, t)
+		t, err = acmelib.NewCustomSignalType(g.name(r, "type", o), 12, true, -1e300, 9223372036854775808, 1e19, -1e19)
+		must(err)
+		g.types = append(g.types, t)
+	}
 	for i := 0; i < 3; i++ {
 		un := g.name(r, "unit", o)
 		if o.manyEqual && i > 0 {
